@@ -23,7 +23,11 @@ definitions of core/operators.py at each node (pointwise `+ - * / ^ < >` with th
 `SUM AVG VAR STD MSE RMSE MAD MIN MAX MEDIAN ARGMIN ARGMAX`); it has no stack, no temporaries and no parser.
 The theorems cover both directions (value: T1–T5, error: T6) and start from the string the user types (T7, with the
 `'` shorthand: T11, and a sign typed directly after a binary `+` / `-`: T12). T8–T10 relate definitions as coded to their
-documented formulas: `MIN` / `MAX` (T8), `ARGMIN` / `ARGMAX` (T9, T9'), `D` / `I` / `D2` (T10). -/
+documented formulas: `MIN` / `MAX` (T8), `ARGMIN` / `ARGMAX` (T9, T9'), `D` / `I` / `D2` (T10).
+
+The model is that of the code after the repairs 5676890 / 2dd86ce (`a/number`, `number/a` are single divisions, coded like
+the other scalar operators; they used to go through a reciprocal) and b728412 (`ARGMIN` / `ARGMAX` take their first index on
+equality with the start value): T5 needs commutativity of `+` and `*` only, T9 holds for every vector that holds a number. -/
 namespace TV.C02
 open TV.Expr TV.Rpn
 
@@ -170,13 +174,15 @@ theorem operate_string_value (tr : Tr α) (e : Ex) (v : Val α)
     doublePrime_id _ hgood]
   exact h
 
-/-- **T5 (tree semantics = ordinary pointwise arithmetic)**: under the four laws of `Laws`
-(`x+s = s+x`, `x*s = s*x`, `x*(1/s) = x/s`, `(1/x)*s = s/x` for non-zero divisors — true in every
-field, with or without a NaN element; *not* exactly true of IEEE doubles, where the last two hold up
-to rounding) the evaluator's semantics of a tree — with its literal folding and its separate
+/-- **T5 (tree semantics = ordinary pointwise arithmetic)**: under the two laws of `Laws`
+(`x+s = s+x`, `x*s = s*x` — the number∘feature forms `sr+`, `sr*` are bound to the feature∘number operators —, true of
+every field and of IEEE doubles) the evaluator's semantics of a tree — with its literal folding and its separate
 feature∘number / number∘feature operator tables — is what one gets by evaluating the tree observation
-by observation with numbers as constant vectors (`denote`). A wrong entry in one of the scalar tables
-(e.g. `sr-` bound to the non-reversed operator) makes this statement false. -/
+by observation with numbers as constant vectors (`denote`): in particular `a/number` and `number/a` are the quotients
+`Divider` computes against a constant vector (since fix 5676890; the pre-fix operators multiplied by a reciprocal and the
+statement needed `x*(1/s) = x/s`, `(1/x)*s = s/x`, which IEEE doubles satisfy up to rounding only, and not at all for a
+subnormal divisor). A wrong entry in one of the scalar tables (e.g. `sr-` bound to the non-reversed operator) makes this
+statement false. -/
 theorem tree_semantics_pointwise (L : Laws α) (tr : Tr α) (hs : WellSized tr) (hn : tr.n ≠ 0) (e : Ex) (v : Val α)
     (hd : denoteM tr e = .ok v) : denote tr e = .ok (v.toVec tr.n) :=
   (denoteM_pointwise L tr hs hn e v hd).1
@@ -360,25 +366,23 @@ theorem aggregate_sentinel (L : OrdLaws α) (T : TopLaws α) (c : List α) (h : 
   minmax_of_no_number L T c h
 
 /-- **T9 (`ARGMIN` / `ARGMAX` as coded are the documented `min {t | x(t) = min(x)}` / `min {t | x(t) = max(x)}`)**: under the
-order laws of the comparison, when the value `MIN` returns is below `+inf` (some number of the vector is), `ARGMIN` is
-the index of the *first* observation holding exactly that value — no earlier observation holds it —, and likewise
-`ARGMAX` with the value of `MAX` when it is above `-inf`. With T8 (that value is the minimum / maximum of the numbers of
-the vector, NaN skipped) this is the documented definition at every magnitude. -/
-theorem aggregate_argmin_argmax (L : OrdLaws α) (c : List α) :
-    (Scalar.lt (minL c) Scalar.inf = true →
-      ∃ k, argminL c = Scalar.ofNat k ∧ c[k]? = some (minL c) ∧ ∀ j, j < k → c[j]? ≠ some (minL c)) ∧
-    (Scalar.lt (Scalar.neg Scalar.inf) (maxL c) = true →
-      ∃ k, argmaxL c = Scalar.ofNat k ∧ c[k]? = some (maxL c) ∧ ∀ j, j < k → c[j]? ≠ some (maxL c)) :=
-  ⟨argminL_first L c, argmaxL_first L c⟩
+order laws of the comparison and of `==` at the start value (`EqLaws`: an infinity is equal to itself and to nothing else), as
+soon as the vector holds one number — of any magnitude, the infinities included — `ARGMIN` is the index of the *first*
+observation holding exactly the value `MIN` returns — no earlier observation holds it —, and likewise `ARGMAX` with the value
+of `MAX`. With T8 (that value is the minimum / maximum of the numbers of the vector, NaN skipped) this is the documented
+definition at every magnitude. (Since fix b728412; before it the statement needed "`MIN` is strictly below `+inf`":
+`ARGMIN{[nan, inf, inf]}` was 0, the index of the NaN.) -/
+theorem aggregate_argmin_argmax (L : OrdLaws α) (T : TopLaws α) (E : EqLaws α) (c : List α) (w : α) (hw : w ∈ c)
+    (hn : Scalar.isNaN w = false) :
+    (∃ k, argminL c = Scalar.ofNat k ∧ c[k]? = some (minL c) ∧ ∀ j, j < k → c[j]? ≠ some (minL c)) ∧
+    (∃ k, argmaxL c = Scalar.ofNat k ∧ c[k]? = some (maxL c) ∧ ∀ j, j < k → c[j]? ≠ some (maxL c)) :=
+  ⟨argminL_first L T E c w hw hn, argmaxL_first L T E c w hw hn⟩
 
-/-- **T9' (the residual case)**: when no value of the vector is strictly below `+inf` (above `-inf`) — an empty or all-NaN
-vector, for which the documented index is undefined, but also a vector whose least number is `+inf` itself — the loop
-never moves and `ARGMIN` (`ARGMAX`) is `0` whatever observation 0 holds: with a NaN there this is not an index of the
-extremum (finding `argextremum-equal-to-start-value`, e.g. `ARGMIN{[nan, inf, inf]} = 0`). -/
-theorem aggregate_arg_start (L : OrdLaws α) (c : List α) :
-    (Scalar.lt (minL c) Scalar.inf = false → argminL c = Scalar.ofNat 0) ∧
-    (Scalar.lt (Scalar.neg Scalar.inf) (maxL c) = false → argmaxL c = Scalar.ofNat 0) :=
-  ⟨argminL_start L c, argmaxL_start L c⟩
+/-- **T9' (no number at all)**: on an empty or all-NaN vector — the only case T9 leaves out, for which the documented index is
+undefined — no index is ever taken and `ARGMIN` / `ARGMAX` return `0` (`return 0 if idmin is None else idmin`). -/
+theorem aggregate_arg_none (L : OrdLaws α) (T : TopLaws α) (E : EqLaws α) (c : List α) (h : ∀ v ∈ c, Scalar.isNaN v = true) :
+    argminL c = Scalar.ofNat 0 ∧ argmaxL c = Scalar.ofNat 0 :=
+  ⟨argminL_none L T E c h, argmaxL_none L T E c h⟩
 
 /-- **T10 (`D`, `I`, `D2` as coded are their documented recurrences)**, for every scalar type and without any law of
 arithmetic: `D`: `y(0) = NaN`, `y(t) = x(t) - x(t-1)`; `I`: `y(0) = 0`, `y(t) = y(t-1) + x(t)`;
@@ -522,7 +526,7 @@ example : operate trEx "(a+b)*2-SUM{(-a)}".toList = (.ok (some [9, 3, 21]), trEx
   rw [sEx_src] at h
   exact h
 
-/-- `c=a/0`: the tree semantics is ZeroDivisionError (scalar division by the literal 0), so is `operate`, and
+/-- `c=a/0`: the tree semantics is ZeroDivisionError (`a[0] / 0` in ScalarDivider's loop), so is `operate`, and
 nothing is stored -/
 def dEx : Sx := .bin '/' (.var ['a']) (.num ['0'])
 example : denoteM trEx (desugar dEx) = .error "err:zerodiv" := by rfl
@@ -574,6 +578,20 @@ example : getitemStr trEx "SUM{a}".toList = operate trEx "SUM{a}".toList :=
 example : (getitemStr trEx "SUM{a}".toList).1.toOption = some (some [3, 3, 3]) ∧ (getitemStr trEx "b".toList).1.toOption = some (some [2, 2, 5]) := by
   decide +kernel
 
+/-- T5 after fix 5676890: `a/2`, `2/a` are the quotients of `Divider` against the constant vector (toy scalar: integer division) -/
+example : denoteM trEx (.bin '/' (.var ['a']) (.num ['2'])) = .ok (.vec [0, -1, 2])
+    ∧ denote trEx (.bin '/' (.var ['a']) (.num ['2'])) = .ok [0, -1, 2]
+    ∧ denoteM trEx (.bin '/' (.num ['8']) (.var ['a'])) = .ok (.vec [8, -4, 2])
+    ∧ denote trEx (.bin '/' (.num ['8']) (.var ['a'])) = .ok [8, -4, 2] := ⟨by rfl, by rfl, by rfl, by rfl⟩
+/-- `2/a` with a zero in `a`: ZeroDivisionError from the division itself; `c` is not stored and no temporary is left -/
+example : (operate (α := Int) ⟨2, [1, 2], [0, 0], [0, 0], [0, 1], [(['a'], [4, 0])]⟩ "c=2/a".toList)
+    = (.error "err:zerodiv", ⟨2, [1, 2], [0, 0], [0, 0], [0, 1], [(['a'], [4, 0])]⟩) := by rfl
+/-- the operator object applied directly: `SCALAR_DIVIDER` by 0 raises at the first observation, `c` having been created at 0
+(like every other scalar operator, fix 2dd86ce) -/
+example : opScal trEx '/' ['a'] 0 ['c'] = (.error "err:zerodiv", { trEx with feats := trEx.feats ++ [(['c'], [0, 0, 0])] })
+    ∧ (opScal trEx '/' ['a'] 2 ['c']).1 = .ok [0, -1, 2]
+    ∧ (opScal trEx '/' ['a'] 2 ['c']).2.feats = trEx.feats ++ [(['c'], [0, -1, 2])] := ⟨by rfl, by rfl, by rfl⟩
+
 /-- T9 on the toy scalar (whose comparison is a strict order): the first of two equal minima / maxima -/
 theorem toy_ord : @OrdLaws Int toy := @OrdLaws.mk Int toy (by intro a; simp [Scalar.lt]) (by
   intro a b c h1 h2
@@ -581,7 +599,19 @@ theorem toy_ord : @OrdLaws Int toy := @OrdLaws.mk Int toy (by intro a; simp [Sca
   omega)
 example : argminL ([3, -7, 4, -7] : List Int) = 1 ∧ argmaxL ([3, 9, 4, 9] : List Int) = 1 ∧ minL ([3, -7, 4, -7] : List Int) = -7 := by
   decide +kernel
-example : Scalar.lt (minL ([3, -7, 4, -7] : List Int)) Scalar.inf = true := by decide +kernel
+/-- T9 at the start value (fix b728412) on the five-element scalar `0 = -inf < 1 < 2 < 3 = +inf`, `4` = NaN: in
+`[nan, inf, inf]` the first index holding the minimum `+inf` is 1 (the pre-fix loop returned 0, the index of the NaN), in
+`[nan, -inf]` the maximum `-inf` is at index 1; with a smaller number later the strict comparison still wins; nothing but NaN
+gives no index -/
+example : @argLoop (Fin 5) ord5 (fun v m => ord5.lt v m) [4, 3, 3] 0 3 none = some 1
+    ∧ @argLoop (Fin 5) ord5 (fun v m => ord5.lt m v) [4, 0] 0 0 none = some 1
+    ∧ @argLoop (Fin 5) ord5 (fun v m => ord5.lt v m) [4, 3, 1, 3, 1] 0 3 none = some 2
+    ∧ @argLoop (Fin 5) ord5 (fun v m => ord5.lt v m) [4, 4] 0 3 none = none := by decide
+example : @EqLaws (Fin 5) ord5 := @EqLaws.mk (Fin 5) ord5 (by decide) (by decide) (by decide) (by decide)
+theorem toy_eq : @EqLaws Int toy := @EqLaws.mk Int toy (by decide +kernel)
+  (by intro v h; simp only [Scalar.eq, Scalar.inf] at h ⊢; simp at h; omega)
+  (by decide +kernel)
+  (by intro v h; simp only [Scalar.eq, Scalar.inf, Scalar.neg] at h ⊢; simp at h; omega)
 /-- T10: `D`, `I`, `D2` of `[1, 4, 9, 16]` -/
 example : diff ([1, 4, 9, 16] : List Int) = [0, 3, 5, 7] ∧ integ ([1, 4, 9, 16] : List Int) = [0, 4, 13, 29]
     ∧ diff2 4 ([1, 4, 9, 16] : List Int) = [0, 2, 2, 0] := by decide +kernel
